@@ -552,9 +552,9 @@ class C19(Check):
                 return
             lines = [l for l in p.stdout.decode(errors="replace").splitlines() if l.startswith("{")]
             if p.returncode != 0 or len(lines) < 4:
-                res.violation("fork:scenario-crashed", f"fork scenario driver ended rc={p.returncode} after {len(lines)} scenarios: "
-                              f"{p.stderr.decode(errors='replace')[-300:]}", {"case": case})
-                return
+                # the driver itself failed: nothing was decided about the lock
+                res.inconclusive.append(f"fork scenario driver ended rc={p.returncode} after {len(lines)} scenarios: "
+                                        f"{p.stderr.decode(errors='replace')[-300:]}")
             for l in lines:
                 o = _json.loads(l)
                 res.evals += 1
